@@ -49,6 +49,29 @@ def encode_text(obj_or_bytes, mask_key):
     return encode_frame(OP_TEXT, payload, mask_key)
 
 
+def encode_text_wire(obj_or_bytes, mask, wire):
+    """the same text message as the client library of another vendor might put it on the wire:
+    wire = {"frag": [fractions]} splits it into websocket fragments (TEXT fin=0, CONT ..., CONT fin=1),
+    wire = {"ping": 1} lets a websocket ping travel first (between two fragments if both are given)"""
+    if isinstance(obj_or_bytes, (bytes, bytearray)):
+        payload = bytes(obj_or_bytes)
+    else:
+        payload = json.dumps(obj_or_bytes).encode("utf-8")
+    cuts = sorted(set(max(1, min(len(payload) - 1, int(f * len(payload)))) for f in (wire.get("frag") or []))) \
+        if len(payload) > 1 else []
+    parts, pos = [], 0
+    for cut in cuts + [len(payload)]:
+        parts.append(payload[pos:cut])
+        pos = cut
+    out = []
+    for i, part in enumerate(parts):
+        op = OP_TEXT if i == 0 else OP_CONT
+        out.append(encode_frame(op, part, mask(), fin=(i == len(parts) - 1)))
+    if wire.get("ping"):
+        out.insert(1 if len(out) > 1 else 0, encode_frame(OP_PING, b"keepalive", mask()))
+    return b"".join(out)
+
+
 class ServerStreamParser(object):
     """Incremental parser of the byte stream written by the server.
 
